@@ -13,7 +13,7 @@ THEOREMS = ['Missing.c13_iff', 'Missing.c13_find_iff', 'Missing.c13_parse_iff', 
             'Missing.isCaseMissing_sel_error', 'Missing.isCaseMissing_unknown_method', 'Missing.isCaseMissing_all_vars',
             'Missing.isCaseMissing_dataarray', 'Missing.findMissing_fnArgs', 'Missing.parseIntoCases_no_ds',
             'Missing.c13_is_src', 'Missing.c13_find_src', 'Missing.c13_parse_src', 'Missing.missingDefaultMethod_isnull']
-ANCHORS = ['addDsTrue', 'addDsFalse', 'addDsNone', 'missingDefaultMethod', 'isCaseMissing', 'findMissing', 'parseIntoCases']
+ANCHORS = ['addDsTrue', 'addDsFalse', 'addDsNone', 'missingDefaultMethod', 'missingEntryDefaults', 'isCaseMissing', 'findMissing', 'parseIntoCases']
 RULE = ("a case is a dataset with 1-4 parameter dimensions (int, float or str labels, 1-3 labels each, sometimes unsorted), "
         "0-2 internal dimensions (with and without coordinates), 1-3 float variables over all or all-but-one parameter "
         "dimensions plus internal ones, cells = value / NaN / +inf / -inf in whole-cell, partial-cell and per-variable "
